@@ -208,6 +208,14 @@ func genInterpCode(a *Asm, r *Rng, n int, cancun bool) {
 				a.Push(memOffset(r)).Op(opMLOAD)
 				h++
 			}
+		case k < 53:
+			// transient storage (Cancun; undefined bytes before): a store and loads of that and of another key
+			key := uint64(r.Intn(3))
+			if r.Chance(70) {
+				a.Push(interpOperand(r)).PushU(key).Op(opTSTORE)
+			}
+			a.PushU(uint64(r.Intn(3))).Op(opTLOAD)
+			h++
 		case k < 54:
 			// KECCAK256 over a range inside, across the end of, or beyond the current memory
 			a.Push(copyLen(r)).Push(memOffset(r)).Op(0x20)
